@@ -195,6 +195,9 @@ def stepLine (s : S) (req resp : List String) : S × List String :=
         else []
       ({ s with model := m, stored := stored, lastRejected := res != "ok",
                 lastAdded := if res == "ok" then newly else [] }, d ++ dupMon)
+    | "editpanic", [] =>
+      -- EditTask whose callback panics: `stopTimer`, then the deferred `resetTimer` while the panic unwinds; nothing else
+      ({ s with model := s.model.stopTimerRaw.resetTimer, lastOp := "edit" }, [])
     | "start", [] => ({ s with model := s.model.startTimer, started := true }, [])
     | "stop", [] => ({ s with model := s.model.stopTimer, started := false }, [])
     | "adv", [t] =>
